@@ -327,7 +327,6 @@ def add_order_obligations() -> list:
             order.append(name)
             return ret(it) if callable(ret) else ret
         return h
-    infos = MList([SRec('info')])
     skip = z3.Bool('all_skipped')
 
     class Skip(SObj):
@@ -339,22 +338,33 @@ def add_order_obligations() -> list:
                 return SymMethod(lambda i, a, k, n: MList([SV('bool', skip)]), 'values')
             return NotImplemented
 
-    contracts = {'wn.lmf.scan_lexicons': stub('scan_lexicons', infos),
-                 'wn._add._precheck': stub('_precheck', lambda it: Skip()),
-                 'wn.lmf.load': stub('load', SRec('resource')),
-                 'wn._add._add_lexical_resource': stub('_add_lexical_resource', None)}
-    res = []
+    seqs = []
+    for infos in (MList([SRec('info')]), MList([])):        # the pre-scan finds lexicons / finds none
+        contracts = {'wn.lmf.scan_lexicons': stub('scan_lexicons', infos),
+                     'wn._add._precheck': stub('_precheck', lambda it: Skip()),
+                     'wn.lmf.load': stub('load', SRec('resource')),
+                     'wn._add._add_lexical_resource': stub('_add_lexical_resource', None)}
 
-    def run(it):
-        del order[:]
-        it.call(A._add_lmf, ['source', addmodel.Progress(), addmodel.Progress()], {})
-        return list(order)
-    outs = explore(run, contracts=contracts, packages=('wn',))
-    seqs = sorted(tuple(o.value) for o in outs if o.kind == 'return')
-    want = sorted([('scan_lexicons', '_precheck'), ('scan_lexicons', '_precheck', 'load', '_add_lexical_resource')])
-    obs.append(Obligation('wn._add._add_lmf:load-before-write', kind='effect', decided=(seqs == want),
+        def run(it):
+            del order[:]
+            it.call(A._add_lmf, ['source', addmodel.Progress(), addmodel.Progress()], {})
+            return list(order)
+        outs = explore(run, contracts=contracts, packages=('wn',))
+        seqs += [tuple(o.value) for o in outs if o.kind == 'return']
+    seqs = sorted(set(seqs))
+    full = ('scan_lexicons', '_precheck', 'load', '_add_lexical_resource')
+    obs.append(Obligation('wn._add._add_lmf:load-before-write', kind='effect',
+                          decided=(full in seqs and all('_add_lexical_resource' not in q or q == full for q in seqs)),
                           detail=f'call sequences {seqs}: the document is fully loaded (and rejected if invalid) before '
                                  '_add_lexical_resource, the only writer, starts', **cm))
+    # "rejected by add() with an exception": a path that returns normally without having called load() has not looked
+    # at the document with the XML parser at all (known finding K25: the two early returns after the regex pre-scan)
+    recorded = {('scan_lexicons',), ('scan_lexicons', '_precheck')}
+    for q in seqs:
+        obs.append(Obligation(f'wn._add._add_lmf:returns-only-after-load:{"+".join(q) or "-"}', kind='effect',
+                              decided='load' in q, finding='K25' if q in recorded else None,
+                              detail=f'path {q} returns normally without load(): an invalid document on this path is '
+                                     'not rejected', **cm))
     return obs
 
 
@@ -392,7 +402,8 @@ def bounded(sess: Session):
     out = F.sweep()
     bad = [r for r in out if r[4]]
     k6 = [r for r in bad if r[3].startswith('K6:')]
-    new = [r for r in bad if not r[3].startswith('K6:')]
+    k25 = [r for r in bad if r[3].startswith('K25:')]
+    new = [r for r in bad if not r[3].startswith(('K6:', 'K25:'))]
     for version, doc, kind, label, problem, text in new[:5]:
         sess.violation_direct(f'wn.lmf.load/scan_lexicons/add:bounded:{version}:{doc}:{kind}:{label}', problem[:1200],
                               {'kind': 'lmf-fault', 'version': version, 'document': text}, reproduced=True,
@@ -402,6 +413,11 @@ def bounded(sess: Session):
         sess.violation_direct(f'wn.lmf.scan_lexicons:bounded:valid:{label}', problem[:1200],
                               {'kind': 'lmf-fault', 'version': version, 'document': text}, reproduced=True,
                               finding='K6', functions=('wn.lmf.scan_lexicons',))
+    if k25:
+        version, doc, kind, label, problem, text = k25[0]
+        sess.violation_direct(f'wn.add:bounded:fault:{label}', problem[:1200],
+                              {'kind': 'lmf-fault', 'version': version, 'document': text}, reproduced=True,
+                              finding='K25', functions=('wn._add._add_lmf',))
     sess.add_bounded('wn.lmf.load / is_lmf / scan_lexicons / wn.add',
                      f'{sum(1 for r in out if r[2] == "valid")} valid variants and '
                      f'{sum(1 for r in out if r[2] == "fault")} single-fault mutations of generated documents, '
